@@ -359,3 +359,12 @@ func anywhere(r rune, p *Parser) stateFn
   ensures C02_esc:    r == 27 ==> (result == fn("escape") && loglen("seq") == old(loglen("seq")) + (old(p.exit) != nil ? 1 : 0)
                          && len(p.intermediate) == 0 && len(p.params) == 0)
 @*/
+
+/*@
+-- NewParser allocates a parser (channels, pools, reader) and starts its goroutine. ASSUMED frame: it touches
+-- nothing that existed before (it is not among the verified functions: generics and goroutine start).
+func NewParser(r io.Reader) *Parser
+  assume true -- frame taken on trust
+  modifies nothing
+  ensures result != nil
+@*/
